@@ -426,9 +426,11 @@ static inline bool sx_tail_post_exact(const char *s, size_t n, size_t i, struct 
   if (r.node->type != ty) return false;
   if (ty == SXT_EMPTY_LIST) return true;
   const struct sx_node *car = r.node->data.pair->car, *cdr = r.node->data.pair->cdr;
-  return car != NULL && cdr != NULL
-         && car->type == sx_expr_root_type(s, n, g_sxW[i])
-         && cdr->type == sx_tail_root_type(s, n, g_sxE[i]);
+  if (car == NULL || cdr == NULL) return false;
+  const enum sx_node_type car_type = car->type, cdr_type = cdr->type;
+  const enum sx_node_type car_want = sx_expr_root_type(s, n, g_sxW[i]);
+  const enum sx_node_type cdr_want = sx_tail_root_type(s, n, g_sxE[i]);
+  return car_type == car_want && cdr_type == cdr_want;
 }
 #define SX_IS_PAIR_RESULT(r) ((r).status == SXS_SUCCESS && (r).node != NULL && (r).node->type == SXT_PAIR)
 
